@@ -179,13 +179,16 @@ func DistMatrix(al align.Alignment, weights []float64, model DistModel, range1Mi
 					return
 				}
 				for j := range2Min; j <= range2Max; j++ {
-					if j != i {
-						if seq2, perr = model.Sequence(j); perr != nil {
-							seterr(perr)
-							return
-						}
-						distchan <- seqpairdist{i, j, seq1, seq2, model, weights}
+					// (i,j) and (j,i) fill the same two cells of the matrix:
+					// if both are in the ranges, only the pair with i<j is computed
+					if j == i || (j < i && j >= range1Min && j <= range1Max && i >= range2Min && i <= range2Max) {
+						continue
 					}
+					if seq2, perr = model.Sequence(j); perr != nil {
+						seterr(perr)
+						return
+					}
+					distchan <- seqpairdist{i, j, seq1, seq2, model, weights}
 				}
 			}
 		} else {
